@@ -169,7 +169,10 @@ EvFn(node, st0, ctx) ==
               THEN LA(1, st0, ctx) ELSE [ok |-> TRUE, st |-> st0]
       active == la.ok
       \* last(action): the action is in match position and runs only when last() holds
-      ea == IF nm = "last" THEN [rs |-> <<>>, st |-> la.st] ELSE EvArgs(node.args, la.st, ctx)
+      \* print(text, f()): f is a follow-up that runs after the entry was printed, and only if it was (see the print clause)
+      ea == IF nm = "last" THEN [rs |-> <<>>, st |-> la.st]
+            ELSE IF nm = "print" /\ Len(node.args) = 2 /\ node.args[2].k # "term" THEN EvArgs(<<node.args[1]>>, la.st, ctx)
+            ELSE EvArgs(node.args, la.st, ctx)
       rs == ea.rs
       st == ea.st
       A(j) == rs[j].val
@@ -382,12 +385,18 @@ EvFn(node, st0, ctx) ==
           \* qualifiers: once (at most one execution per run; its marker is a hash-named variable,
           \* modelled here by st.onceDone), onmatch handled above
           LET env == [vars |-> st.vars, line |-> TextsOf(st.line), headers |-> st.headers, meta |-> ctx.meta, k |-> ctx.k,
-                      matchCount |-> st.matchCount, scanCount |-> st.scanCount, totalData |-> ctx.totalData]
-              out == IF node.tmpl = <<>> THEN A(1).s ELSE Emitted(node.tmpl, env)
+                      matchCount |-> st.matchCount, scanCount |-> st.scanCount, totalData |-> ctx.totalData,
+                      valid |-> st.valid, stopped |-> st.stopped]
+              body == IF node.tmpl = <<>> THEN A(1).s ELSE Emitted(node.tmpl, env)
+              \* print(text, "name") sends the entry to the named printout stream (shown as "[name] text" by the standard-out
+              \* printer); print(text, f()) runs f after the entry was printed
+              out == IF N = 2 THEN <<91>> \o A(2).s \o <<93, 32>> \o body ELSE body
+              follow == Len(node.args) = 2 /\ node.args[2].k # "term"
               blocked == Has(node, "once") /\ node.name_q \in st.onceDone
           IN IF blocked THEN R(None, D, st)
-             ELSE R(None, D, [st EXCEPT !.printed = Append(st.printed, out),
-                                        !.onceDone = IF Has(node, "once") THEN @ \cup {node.name_q} ELSE @])
+             ELSE LET st1 == [st EXCEPT !.printed = Append(st.printed, out),
+                                        !.onceDone = IF Has(node, "once") THEN @ \cup {node.name_q} ELSE @]
+                  IN R(None, D, IF follow THEN Ev(node.args[2], st1, ctx).st ELSE st1)
     [] OTHER -> R(None, D, st)
 
 \* ---- nodes ---------------------------------------------------------------------------------------
